@@ -119,10 +119,12 @@ func VerifC13History(dir string, ops []VerifC13HOp) ([]VerifC13HObs, error) {
 		case "remove":
 			os.Remove(filepath.Join(dir, op.Path))
 		}
-		for l, err := range verifC13Cache(dir).links() {
-			if err != nil {
-				return nil, err
-			}
+		// independent of the code under test and of the directory's name: never a pattern built from dir
+		ls, err := fs.Glob(os.DirFS(dir), "manifests/*/*/*/*")
+		if err != nil {
+			return nil, err
+		}
+		for _, l := range ls {
 			data, _ := os.ReadFile(filepath.Join(dir, l))
 			sum := sha256.Sum256(data)
 			o.Links = append(o.Links, l)
